@@ -296,6 +296,21 @@ pub fn render_hpoa(f: &FactSet, rng: &mut Rng, o: &JaxOpts) -> String {
         }
         // comment lines in the middle of the data
         rows.push("#OMIM:1\tcommented out\t\tHP:0000001\tx".to_string());
+        // foreign lines are text like any other: characters of two, three and four bytes at every
+        // small byte offset (comment lines, rows of other databases, very short lines)
+        if rng.chance(1, 2) {
+            let wide = ["é", "日", "𝔘", "ß", "語"];
+            for _ in 0..rng.urange(1, 4) {
+                let lead = "#Cafx:".chars().take(rng.below(7) as usize).collect::<String>();
+                let c = *rng.pick(&wide);
+                let rest = if rng.chance(1, 3) { String::new() } else { format!("{c} notes\t\t{}\tx", hp(1)) };
+                rows.push(format!("{lead}{c}{rest}"));
+            }
+            if !term_ids.is_empty() {
+                rows.push(format!("Décipher:7\tfrançais\t\t{}\t{tail}", hp(*rng.pick(&term_ids))));
+                rows.push(format!("ORPH{}:7\t日本語\t\t{}\t{tail}", rng.pick(&wide), hp(*rng.pick(&term_ids))));
+            }
+        }
     }
     if o.shuffle {
         rng.shuffle(&mut rows);
